@@ -4,7 +4,7 @@ EXTENDS Sampling
 
 AllOps == {"done", "skip", "early", "done_end"}
 CfgW(nw, groups, n, ops, evo, warm) ==
-  [nw |-> nw, groups |-> groups, n |-> n, ops |-> ops, reward |-> <<2, 3, 3, 1>>, evo |-> evo, warm |-> warm]
+  [nw |-> nw, groups |-> groups, n |-> n, ops |-> ops, reward |-> <<2, 3, 3, 1, 2, 3, 1, 2, 3, 1, 2, 3>>, evo |-> evo, warm |-> warm]
 Cfg(nw, groups, n, ops, evo) == CfgW(nw, groups, n, ops, evo, FALSE)
 
 OpMixes == {{"done"}, {"done", "skip"}, {"done", "early"}, {"done", "done_end"}}
@@ -19,11 +19,31 @@ TwoSameDone == {Cfg(2, <<1, 1>>, 2, {"done"}, FALSE)}
 TwoSameDoneEvo == {Cfg(2, <<1, 1>>, 2, {"done"}, TRUE)}
 TwoDiffDoneEvo == {Cfg(2, <<1, 2>>, 2, {"done"}, TRUE)}
 \* liveness instance
-Live == {Cfg(2, g, 2, ops, evo) : g \in {<<1, 2>>, <<1, 1>>}, ops \in {{"done", "skip"}, {"done", "done_end"}}, evo \in BOOLEAN}
+Live == {Cfg(2, g, 2, {"done", "done_end"}, evo) : g \in {<<1, 2>>, <<1, 1>>}, evo \in BOOLEAN}
+LiveBig == {Cfg(2, g, 2, ops, evo) : g \in {<<1, 2>>, <<1, 1>>}, ops \in {{"done", "skip"}, {"done", "done_end"}, {"done", "early"}}, evo \in BOOLEAN}
 \* three workers, started one after the other (the constructor races are covered by the 2-worker sets)
 ThreeGroups == {<<1, 2, 3>>, <<1, 1, 2>>, <<1, 1, 1>>}
-ThreeWarm == {CfgW(3, g, 2, ops, evo, TRUE) : g \in ThreeGroups, ops \in {{"done"}, {"done", "skip"}, {"done", "done_end"}}, evo \in BOOLEAN}
-ThreeWarmN3 == {CfgW(3, g, 3, {"done"}, evo, TRUE) : g \in ThreeGroups, evo \in BOOLEAN}
+ThreeWarm == {CfgW(3, g, 2, ops, evo, TRUE) : g \in ThreeGroups, ops \in {{"done"}, {"done", "skip"}}, evo \in BOOLEAN}
+             \cup {CfgW(3, <<1, 1, 2>>, 2, {"done", "done_end"}, evo, TRUE) : evo \in BOOLEAN}
+ThreeWarmN3 == {CfgW(3, <<1, 2, 3>>, 3, {"done"}, evo, TRUE) : evo \in BOOLEAN} \cup {CfgW(3, <<1, 1, 2>>, 3, {"done"}, FALSE, TRUE)}
 ThreeCold == {CfgW(3, g, 2, {"done"}, evo, FALSE) : g \in {<<1, 2, 3>>, <<1, 1, 2>>}, evo \in BOOLEAN}
 QuickSet == Two(2) \cup {CfgW(2, g, 3, {"done", "skip"}, evo, TRUE) : g \in {<<1, 2>>, <<1, 1>>}, evo \in BOOLEAN}
+\* configuration sets for simulation (S->C forcing): all group assignments of 2 and 3 workers, bigger
+\* crews with representative assignments
+MixesPlus == OpMixes \cup {AllOps, {"skip", "early"}}
+SimSmall == {CfgW(2, g, n, ops, evo, warm) : g \in {<<1, 2>>, <<1, 1>>}, n \in {2, 3}, ops \in MixesPlus,
+                                            evo \in BOOLEAN, warm \in BOOLEAN}
+            \cup {CfgW(3, g, n, ops, evo, warm) : g \in ThreeGroups, n \in {2, 3}, ops \in MixesPlus,
+                                                  evo \in BOOLEAN, warm \in BOOLEAN}
+SimBig == {CfgW(Len(g), g, n, ops, evo, warm) :
+             g \in {<<1, 1, 2, 2>>, <<1, 2, 3, 4>>, <<1, 1, 1, 2>>, <<1, 1, 2, 2, 3, 3>>, <<1, 2, 3, 4, 5, 6>>,
+                    <<1, 1, 1, 1, 2, 2, 3, 4>>, <<1, 2, 3, 4, 5, 6, 7, 8>>},
+             n \in {3, 5}, ops \in MixesPlus, evo \in BOOLEAN, warm \in BOOLEAN}
+\* instances for the counter-examples forced onto the code (generated cfgs)
+CeCold(evo) == {CfgW(2, <<1, 2>>, 2, {"done"}, evo, FALSE)}
+CeWarmSame(evo) == {CfgW(2, <<1, 1>>, 2, {"done"}, evo, TRUE)}
+CeColdPlain == CeCold(FALSE)
+CeColdEvo == CeCold(TRUE)
+CeWarmSamePlain == CeWarmSame(FALSE)
+CeWarmSameEvo == CeWarmSame(TRUE)
 =============================================================================
